@@ -6,6 +6,7 @@ import (
 	"fmt"
 	"html"
 	"io"
+	"net/url"
 	"path"
 	"strconv"
 	"strings"
@@ -147,6 +148,81 @@ func init() {
 		for in.Scan() {
 			c, _ := strconv.Atoi(strings.TrimSpace(in.Text()))
 			fmt.Fprintf(w, "%v %v\n", unicode.IsSpace(rune(c)), unicode.IsPunct(rune(c)))
+		}
+	}
+}
+
+// urlcands: e2e case line -> the " | U raw=norm" / " | U raw=!" world entries for every literal macro argument (of the
+// main document and of its F files) on which url.Parse(x).String() is not the identity ("!" = parse error).
+func init() {
+	cmds["urlcands"] = func(in *bufio.Scanner, w *bufio.Writer, _ []string) {
+		for in.Scan() {
+			parts := strings.Split(in.Text(), " | ")
+			var docs []string
+			if toks := strings.SplitN(strings.TrimSpace(parts[0]), " ", 2); len(toks) > 1 {
+				docs = append(docs, unrunes(toks[1]))
+			}
+			for _, p := range parts[1:] {
+				if strings.HasPrefix(p, "F ") {
+					if nc := strings.SplitN(p[2:], "=", 2); len(nc) == 2 {
+						docs = append(docs, unrunes(nc[1]))
+					}
+				}
+			}
+			seen := map[string]bool{}
+			var out []string
+			for _, d := range docs {
+				p := parser.Parser{Werror: io.Discard}
+				bs, _ := p.ParseString(d)
+				for _, b := range bs {
+					m, ok := b.(*ast.Macro)
+					if !ok {
+						continue
+					}
+					for _, a := range m.Args {
+						s, lit := "", true
+						for _, e := range a {
+							switch e := e.(type) {
+							case ast.Text:
+								s += string(e)
+							case ast.Escape:
+								switch string(e) {
+								case "e":
+									s += "\\"
+								case "&":
+								case "~":
+									s += " "
+								default:
+									lit = false
+								}
+							default:
+								lit = false
+							}
+						}
+						if !lit || s == "" || seen[s] {
+							continue
+						}
+						seen[s] = true
+						for _, cand := range []string{s, path.Base(s)} {
+							if seen["c:"+cand] {
+								continue
+							}
+							seen["c:"+cand] = true
+							u, err := url.Parse(cand)
+							if err != nil {
+								out = append(out, "U "+runes(cand)+"=!")
+							} else if u.String() != cand {
+								out = append(out, "U "+runes(cand)+"="+runes(u.String()))
+							}
+						}
+					}
+				}
+			}
+			if len(out) > 0 {
+				fmt.Fprintln(w, " | "+strings.Join(out, " | "))
+			} else {
+				fmt.Fprintln(w)
+			}
 		}
 	}
 }
